@@ -8,7 +8,7 @@ PROP = {
     "technique": "Lean 4 refinement proof by induction over write histories + differential correspondence on real MemoryAreas",
     "streams": [{"name": "c12"}],
     "modules": ["GbVerif.Model.Cart", "GbVerif.Spec.Cart", "GbVerif.Proofs.NatBits"],
-    "rule": "per header configuration (type, ROM code, RAM code) random write sequences of length 1..24 (thorough 1..40, 400 per "
+    "rule": "after every write the line also carries the first byte of the INSTRUCTION-FETCH slice at 0x0000 and 0x4000 (f0=, f4=): the bank that is visible is the bank that is executed; per header configuration (type, ROM code, RAM code) random write sequences of length 1..24 (thorough 1..40, 400 per "
             "configuration) biased to region edges and register ranges; non-trivial = some write left a bank other than ROM 1 / RAM 0",
     "assumptions": ["RTC registers of MBC3 and the RAM-enable latch are outside the statement (the emulator ignores RAM enable)"],
 }
